@@ -43,15 +43,16 @@ func c30FltTok(f float64) string { return strconv.FormatFloat(f, 'g', -1, 64) }
 
 func c30Int(z int64, label string) c30Val {
 	s := strconv.FormatInt(z, 10)
-	return c30Val{json: s, tok: "i:" + s, class: "integer", i: z, label: label}
+	return c30Val{json: s, tok: "num:" + vfHex(s) + ":" + vfHex(c30FltTok(float64(z))), class: "integer", i: z, label: label}
 }
 
 func c30Float(lit string, label string) c30Val {
 	f, err := strconv.ParseFloat(lit, 64)
 	if err != nil {
-		return c30Val{json: lit, tok: "", class: "error", label: label}
+		// magnitude rounds to infinity: json.Number.Float64 fails and the request is rejected
+		return c30Val{json: lit, tok: "num:" + vfHex(lit) + ":" + vfHex("inf"), class: "error", label: label}
 	}
-	return c30Val{json: lit, tok: "f:" + vfHex(c30FltTok(f)), class: "real", f: f, label: label}
+	return c30Val{json: lit, tok: "num:" + vfHex(lit) + ":" + vfHex(c30FltTok(f)), class: "real", f: f, label: label}
 }
 
 func c30Str(s string, label string) c30Val {
@@ -110,19 +111,22 @@ func c30Gen(r *vfRng) c30Val {
 			return c30Int(math.MaxInt64-int64(r.Intn(1000)), "int:near-max")
 		case 6:
 			// beyond int64: becomes a float by the parser's rule
-			v := c30Float("9223372036854775808", "int:beyond-int64")
-			v.tok = "i:9223372036854775808"
-			return v
+			return c30Float(r.Pick([]string{"9223372036854775808", "18446744073709551615", "10000000000000000000000"}), "int:beyond-int64")
 		case 7:
-			v := c30Float("-9223372036854775809", "int:beyond-int64")
-			v.tok = "i:-9223372036854775809"
+			return c30Float(r.Pick([]string{"-9223372036854775809", "-18446744073709551616"}), "int:beyond-int64")
+		case 8:
+			// -0 is an integer literal: bound as INTEGER 0
+			v := c30Int(0, "int:minus-zero")
+			v.json = "-0"
+			v.tok = "num:" + vfHex("-0") + ":" + vfHex("0")
 			return v
 		default:
 			return c30Int(int64(r.U64()), "int:random")
 		}
 	case p < 38:
 		lits := []string{"1.5", "0.1", "1.0", "1e3", "-2.5e-7", "3.141592653589793", "1.7976931348623157e308", "5e-324",
-			"123456789.123456789", "1E2", "-0.75", "2.2250738585072014e-308", "100.0", "9007199254740993.0"}
+			"123456789.123456789", "1E2", "-0.75", "2.2250738585072014e-308", "100.0", "9007199254740993.0",
+			"1E400", "-1e400", "1.7976931348623158e308", "1.7976931348623159e308", "1e-400", "9223372036854775807.0", "1e0", "0e0", "0.30000000000000004"}
 		if r.Chance(30) {
 			return c30Float(strconv.FormatFloat(math.Float64frombits(r.U64()&^(0x7ff<<52)|uint64(900+r.Intn(250))<<52), 'g', -1, 64), "float:random")
 		}
@@ -499,10 +503,6 @@ func TestVerifC30(t *testing.T) {
 		p := stmts[0].Parameters[0]
 		if v.tok != "" {
 			ps := c30ParamStr(p)
-			if d, ok := p.GetValue().(*command.Parameter_D); ok && v.label == "int:beyond-int64" && d.D == v.f {
-				// an integer literal outside int64 becomes the nearest double; the model names that value by the literal
-				ps = "D:" + vfHex("int:"+v.json)
-			}
 			add("param "+v.tok, ps)
 		}
 		if v.class == "error" {
